@@ -24,6 +24,20 @@ theorem c16_dataEditCall_eq (env : Env) (ops : List EditOp) (d : Data) :
   | ok d' => rfl
   | error s => cases s <;> rfl
 
+/-! ### Edge: arbitrary constructor arguments -/
+
+/-- `Edge(rise, fall, u_rise, u_fall)` called with arbitrary Python objects, read as the model's arguments:
+    the truth values, and `u_rise` absent exactly when the object is `None` (NOT when it is merely false) -/
+def c16EdgeArgs (rise fall uRise uFall : Val) : EdgeArgs :=
+  { rise := rise.truthy, fall := fall.truthy,
+    uRise := if uRise = Val.none then none else some uRise.truthy,
+    uFall := uFall.truthy }
+
+/-- the model's arguments as Python objects -/
+def c16OptBoolVal : Option Bool → Val
+  | none => Val.none
+  | some b => Val.bool b
+
 /-! ### Delta: Python's `abs` -/
 
 theorem c16_pyAbs_eq (a : Rat) : Gen.TrFo.pyAbs a = absQ a := rfl
